@@ -160,6 +160,9 @@ func (ctx *StorageExecuteContext) Release() {
 type TagFilterResult struct {
 	TagKeyID    tag.KeyID
 	TagValueIDs *roaring.Bitmap
+	// TagKeyNotFound: no series of the metric on this node carries the tag key, the filter matches nothing
+	// (tag key ids start at 0, so there is no id to say that).
+	TagKeyNotFound bool
 }
 
 // TimeSegmentContext represents time segment context
